@@ -473,6 +473,16 @@ C18_Transfer ==
   (phase = "submitted" /\ Wellformed) =>
      \A u \in uses : \A f \in ReadFiles(u[2]) : TransferOk(u[1], f)
 
+\* no download without an upload: every input a submitted job copies in comes from the destination of an output of a submitted
+\* job, from an external input file, or from where this submission uploaded a local input file.  (With a resource group, the
+\* consumer of one member copies in ALL members: each of them must have been copied out by the producer.)
+C18_NoDangling ==
+  phase = "submitted" =>
+     \A c \in Submitted : \A x \in sub[c].inputs :
+        \/ \E p \in Submitted : \E y \in sub[p].outputs : y.dst = x.src
+        \/ \E r \in (DOMAIN inpath) \cap created : x.src = PathOf(inpath[r])
+        \/ \E u \in uploads : u.dst = x.src
+
 \* the consumer is submitted as a child of the producer (and of every explicit dependency)
 C18_Parents ==
   \A c \in Submitted : \A p \in Parents(c) : p \in sub[c].parents
